@@ -192,6 +192,19 @@ func (runInfo *runInfoStruct) invokeLetItemSlice(expr *ast.ItemExpr, item reflec
 
 	if index == item.Len() {
 		// try to do automatic append
+		// the grown slice is stored back through the base of the target: when that cannot be done
+		// the statement fails before anything is appended into storage the slice shares
+		switch expr.Item.(type) {
+		case *ast.IdentExpr, *ast.MemberExpr, *ast.ItemExpr, *ast.DerefExpr:
+		case *ast.SliceExpr:
+			runInfo.err = newStringError(expr.Item, "slice cannot be assigned")
+			runInfo.rv = nilValue
+			return
+		default:
+			runInfo.err = newStringError(expr.Item, "invalid operation")
+			runInfo.rv = nilValue
+			return
+		}
 		value, runInfo.err = convertReflectValueToType(value, item.Type().Elem())
 		if runInfo.err != nil {
 			runInfo.err = newStringError(expr, "type "+value.Type().String()+" cannot be assigned to type "+item.Type().Elem().String()+" for slice index")
